@@ -265,8 +265,10 @@ def cases(draw):
     if k <= 16:
         snippet = INVALID[draw(st.integers(0, len(INVALID) - 1))]
         hdr = programs.HDR if not snippet.startswith(("--", "require")) else ""
-        if draw(st.integers(0, 4)) == 0:
-            return {"src": {"": hdr + "from library import m\nm.f(1)\n", "m": programs.HDR + snippet}, "opts": opts, "family": "invalid-in-library"}
+        if draw(st.integers(0, 3)) == 0:
+            # the faulty line sits in a library, often far below the last line of the (short) main file
+            pad = "".join("# filler %d\n" % j for j in range(draw(st.sampled_from([0, 1, 2, 5, 12, 40]))))
+            return {"src": {"": hdr + "from library import m\nm.f(1)\n", "m": programs.HDR + pad + snippet}, "opts": opts, "family": "invalid-in-library"}
         return {"src": hdr + snippet, "opts": opts, "family": "dialect-invalid"}
     if k == 17:
         # option comments: well-formed lists with trailing remarks / odd separators / many names
